@@ -27,6 +27,7 @@ func F§() {
 	_ = regexp.MustCompile(` + "`[a-a]x{1,1}(?:a)`" + `)
 	_, _ = regexp.Compile("^\\s+[[:digit:]]$")
 	_ = regexp.MustCompile("(foo|foo)(ba)*\\d[0-9]")
+	_ = regexp.MustCompile("^(kb|kb|mb|mb|gb|gb|tb|tb|pb|pb)$")
 	_ = regexp.MustCompile("http://example.com/a.b")
 	_ = regexp.MustCompile(«s»)
 	_, _ = regexp.CompilePOSIX("x{0,1}[a-a]")
